@@ -10,7 +10,8 @@
 //!   min=12|13  mode=ca|ss  authz=0|1 (server side)  name=<expected server name>|- (client side, ca mode)
 //!   trust=<pem> cert=<pem> key=<pem>      material of the endpoint under test (trust = peer_cert_path)
 //!   peer=openssl|rodbus|plain   offer=12|13|both
-//!   pmode=ca|ss ptrust=<pem> pcert=<pem> pkey=<pem>   material of the peer
+//!   pmode=ca|ss ptrust=<pem> pcert=<pem> pkey=<pem> [pchain=<pem>]   material of the peer (pchain: intermediates
+//!                               an openssl peer sends along; a rodbus peer gets them inside pcert)
 //! output line:  <OK|REFUSED>:<negotiated version as reported by openssl or ->:<roles seen by the
 //!   authorization handler, ','-separated, or ->:<number of request-handler calls>
 //!   OK = a Modbus request was answered through the session (server side) / the client task
@@ -219,7 +220,7 @@ fn run_rodbus_client(rt: &tokio::runtime::Runtime, cfg: TlsClientConfig, addr: S
         Some(Box::new(StateListener { tx })),
     );
     let _ = rt.block_on(channel.enable());
-    let connected = wait_state(&rx, Duration::from_secs(5)) == Some(true);
+    let connected = wait_state(&rx, Duration::from_secs(15)) == Some(true);
     let mut answered = false;
     if connected && do_request {
         let param = RequestParam::new(UnitId::new(1), Duration::from_secs(2));
@@ -369,7 +370,7 @@ fn run_ffi_client(kv: &HashMap<String, String>, addr: SocketAddr) -> Result<Opti
             return Err(format!("CONFIG:{rc}"));
         }
         ffi::rodbus_client_channel_enable(channel);
-        let end = Instant::now() + Duration::from_secs(5);
+        let end = Instant::now() + Duration::from_secs(15);
         let mut res = None;
         loop {
             let left = end.saturating_duration_since(Instant::now());
@@ -392,9 +393,12 @@ fn run_ffi_client(kv: &HashMap<String, String>, addr: SocketAddr) -> Result<Opti
     }
 }
 
-fn openssl_client_exchange(openssl: &str, addr: SocketAddr, pcert: &str, pkey: &str, ptrust: &str, offer: &str) -> Result<(bool, String), String> {
+fn openssl_client_exchange(openssl: &str, addr: SocketAddr, pcert: &str, pkey: &str, ptrust: &str, offer: &str, pchain: &str) -> Result<(bool, String), String> {
     let mut cmd = Command::new(openssl);
     cmd.args(["s_client", "-connect", &addr.to_string(), "-cert", pcert, "-key", pkey, "-CAfile", ptrust, "-brief", "-ign_eof"]);
+    if !pchain.is_empty() {
+        cmd.args(["-cert_chain", pchain]);
+    }
     if let Some(f) = offer_flag(offer) {
         cmd.arg(f);
     }
@@ -402,7 +406,7 @@ fn openssl_client_exchange(openssl: &str, addr: SocketAddr, pcert: &str, pkey: &
     if let Some(mut stdin) = p.child.stdin.take() {
         let _ = stdin.write_all(&REQUEST);
         let _ = stdin.flush();
-        let end = Instant::now() + Duration::from_secs(6);
+        let end = Instant::now() + Duration::from_secs(15);
         loop {
             if contains(&p.out.lock().unwrap(), &REPLY) || p.eof.load(Ordering::SeqCst) >= 2 || Instant::now() > end {
                 break;
@@ -437,7 +441,7 @@ fn cell(rt: &tokio::runtime::Runtime, line: &str, openssl: &str, ip: Ipv4Addr) -
             Ok(s) => s,
             Err(e) => return e,
         };
-        let (ok, version) = match openssl_client_exchange(openssl, sut.addr, &get("pcert"), &get("pkey"), &get("ptrust"), &offer) {
+        let (ok, version) = match openssl_client_exchange(openssl, sut.addr, &get("pcert"), &get("pkey"), &get("ptrust"), &offer, &get("pchain")) {
             Ok(x) => x,
             Err(e) => return e,
         };
@@ -460,7 +464,7 @@ fn cell(rt: &tokio::runtime::Runtime, line: &str, openssl: &str, ip: Ipv4Addr) -
         let mut version = "-".to_string();
         let ok;
         match peer.as_str() {
-            "openssl" => match openssl_client_exchange(openssl, sut.addr, &get("pcert"), &get("pkey"), &get("ptrust"), &offer) {
+            "openssl" => match openssl_client_exchange(openssl, sut.addr, &get("pcert"), &get("pkey"), &get("ptrust"), &offer, &get("pchain")) {
                 Ok((o, v)) => {
                     ok = o;
                     version = v;
@@ -512,12 +516,15 @@ fn cell(rt: &tokio::runtime::Runtime, line: &str, openssl: &str, ip: Ipv4Addr) -
                 if let Some(f) = offer_flag(&offer) {
                     cmd.arg(f);
                 }
+                if !get("pchain").is_empty() {
+                    cmd.args(["-cert_chain", &get("pchain")]);
+                }
                 let p = match Proc::spawn(cmd) {
                     Ok(p) => p,
                     Err(_) => return "NOOPENSSL".to_string(),
                 };
                 // wait until the port accepts (the probe connection is dropped at once)
-                let end = Instant::now() + Duration::from_secs(5);
+                let end = Instant::now() + Duration::from_secs(15);
                 let mut up = false;
                 while Instant::now() < end {
                     if std::net::TcpStream::connect(addr).is_ok() {
